@@ -73,8 +73,8 @@ func TestC13_Known_ZeroHeightClientExportInvalid(t *testing.T) {
 // toggle builds the new client state on a scratch branch and toggles through the keeper the way the
 // gov handler does.
 func toggle(e *env, name string, to clientPlan) {
-	sctx, _ := e.c.Ctx().CacheContext()
-	se := &env{c: e.c, ctx: sctx}
+	sctx, _ := baseChain().Ctx().CacheContext()
+	se := &env{c: baseChain(), ctx: sctx}
 	to.Name = name
 	se.create(to, 50, pinnedTSS)
 	ncs, _ := se.ck().GetClientState(sctx, name)
